@@ -17,7 +17,7 @@ def main(chk: core.Check, replay):
                       backend="jax", fams=[3, 4] if quick else [1, 2, 3, 4])
     structural.run(chk, "C03", quick_models=120, thorough_models=1500, layout=True)
     # the same modules jitted, called with JAX arrays (a few models: compilation dominates)
-    structural.run(chk, "C03", backend="jax-jit", quick_models=10, thorough_models=120)
+    structural.run(chk, "C03", backend="jax-jit", quick_models=10, thorough_models=40)
     tracesleg.run(chk, "C03")
     # missing_values and functions with a missing_variables argument (sub-models of a component split), backend jax
     from .c13 import split_corpus
